@@ -1153,6 +1153,18 @@ func genRandomString() (string, error) {
 	return base64.RawURLEncoding.EncodeToString(rb), nil
 }
 
+// containsBackslashOrControl reports whether s contains a backslash or an ASCII
+// control character. Browsers treat "/\" like "//" and strip tabs and newlines
+// before resolving a URL, so such destinations can leave our origin.
+func containsBackslashOrControl(s string) bool {
+	for i := 0; i < len(s); i++ {
+		if c := s[i]; c == '\\' || c < 0x20 || c == 0x7f {
+			return true
+		}
+	}
+	return false
+}
+
 // We need to ensure that all login destinations are relative paths
 // Thus the path MUST start with a / but MUST NOT start with a //, because
 // // is interpreted as: use whatever protocol you think is OK
@@ -1161,7 +1173,8 @@ func getLoginDestination(r *http.Request) string {
 	if r.FormValue("login_destination") != "" {
 		inboundLoginDestination := r.Form.Get("login_destination")
 		if strings.HasPrefix(inboundLoginDestination, "/") &&
-			!strings.HasPrefix(inboundLoginDestination, "//") {
+			!strings.HasPrefix(inboundLoginDestination, "//") &&
+			!containsBackslashOrControl(inboundLoginDestination) {
 			loginDestination = inboundLoginDestination
 		}
 	}
